@@ -109,7 +109,7 @@ def gen_job(verif_seed, tier, index):
     if g.random() < 0.1:
         ff, rg = ffgen.gen_ff_linktype(g)
     else:
-        ff = ffgen.gen_ff(g, uniform_nrexcl=g.random() < 0.6)
+        ff = ffgen.gen_ff(g, uniform_nrexcl=g.random() < 0.6, removal_p=0.12)
         rg = ffgen.gen_resgraph(g, ff)
     base = histgen.make_op(ff, rg, g, graph_kind="json")
     members.append({"dim": "base", "hashseed": 0, "ops": [base], "observe": 0})
